@@ -8,6 +8,7 @@
 import Drx.Link
 import DrxProofs.LinkExec
 import DrxProofs.LinkFlow
+import DrxProofs.LinkNum
 namespace Drx.Link
 open Drx Drx.Lscr Drx.Gen Drx.Spec
 set_option linter.unusedSimpArgs false
@@ -35,10 +36,18 @@ theorem M_pure_ok {α} (a : α) (s : St) (r : α × St) : (pure a : M α) s = .o
 theorem M_fail_ok {α} (msg : String) (s : St) (r : α × St) : (Spec.fail msg : M α) s = .ok r ↔ False := by
   simp [Spec.fail]
 
-/-- constants the link theorems cover (so far: pool integers, which `lowerInt` emits for 32768 ≤ n < 2^31) -/
+/-- constants the link theorems cover: pool integers (which `lowerInt` emits for 32768 ≤ n < 2^31) and non-empty strings of
+    plain characters -/
 def GoodConst : Spec.Const → Prop
   | .int n => n < 2147483648
+  | .str s => plainStrB s = true
   | _ => False
+
+/-- the model's constant (`ConstantValue.name`) for a pool entry -/
+def constName : Spec.Const → Lscr.Name
+  | .int n => .s (natStr n)
+  | .str s => .s (escapeString s)
+  | .float _ _ => .s []
 
 /-- the name table and the constant pool only grow, by appending (and only by covered constants) -/
 def Ext (s s' : St) : Prop := (∃ x, s'.names = s.names ++ x) ∧ (∃ y, s'.consts = s.consts ++ y ∧ ∀ c ∈ y, GoodConst c)
@@ -314,9 +323,50 @@ theorem GvOk.snoc {G : List Spec.Name} {gv : List Node} (h : GvOk G gv) (g : Spe
   · simp only [List.mem_singleton] at hx
     exact ⟨g, p, hx, hg⟩
 
+/-- the nodes of the list have pairwise different names (`generate_lingo_code` sorts by this key) -/
+def GvDistinct (gv : List Node) : Prop := (gv.map nameKey).Nodup
+
+/-- how the list of referenced globals evolves: still well-formed, only appended to, still without repeated names -/
+def GvNext (G : List Spec.Name) (gv gv' : List Node) : Prop :=
+  GvOk G gv' ∧ (∃ ext, gv' = gv ++ ext) ∧ (GvDistinct gv → GvDistinct gv')
+
+theorem GvNext.refl {G : List Spec.Name} {gv : List Node} (h : GvOk G gv) : GvNext G gv gv := ⟨h, ⟨[], by simp⟩, id⟩
+
+theorem GvNext.trans {G : List Spec.Name} {a b c : List Node} (h1 : GvNext G a b) (h2 : GvNext G b c) : GvNext G a c := by
+  obtain ⟨_, ⟨e1, he1⟩, hd1⟩ := h1
+  obtain ⟨hok, ⟨e2, he2⟩, hd2⟩ := h2
+  exact ⟨hok, ⟨e1 ++ e2, by rw [he2, he1, List.append_assoc]⟩, fun h => hd2 (hd1 h)⟩
+
+theorem nameKey_glob (g : Spec.Name) (p : Int) : nameKey (.leaf .globalVar (.s g) p) = g := rfl
+
+theorem pyIn_false_key {G : List Spec.Name} {gv : List Node} (h : GvOk G gv) (v : Spec.Name) (a : Int)
+    (hin : ¬ pyIn (.leaf .globalVar (.s v) a) gv = true) : v ∉ gv.map nameKey := by
+  intro hm
+  obtain ⟨x, hx, hk⟩ := List.mem_map.mp hm
+  obtain ⟨g, p, rfl, _⟩ := h x hx
+  rw [nameKey_glob] at hk
+  subst hk
+  apply hin
+  unfold pyIn
+  rw [List.any_eq_true]
+  exact ⟨_, hx, by simp [Node.pyEq, Node.cls, Node.name]⟩
+
+theorem GvNext.snoc {G : List Spec.Name} {gv : List Node} (h : GvOk G gv) (v : Spec.Name) (a : Int) (hG : v ∈ G)
+    (hin : ¬ pyIn (.leaf .globalVar (.s v) a) gv = true) : GvNext G gv (gv ++ [.leaf .globalVar (.s v) a]) := by
+  refine ⟨h.snoc v a hG, ⟨_, rfl⟩, ?_⟩
+  intro hd
+  unfold GvDistinct at hd ⊢
+  rw [List.map_append, List.nodup_append]
+  refine ⟨hd, by simp, ?_⟩
+  intro x hx y hy
+  simp only [List.map_cons, List.map_nil, List.mem_singleton, nameKey_glob] at hy
+  subst hy
+  intro e; subst e
+  exact pyIn_false_key h _ a hin hx
+
 theorem exec_glob (ctx : Lscr.Ctx) (i : Nat) (v : Spec.Name) (hn : ctx.names[i]? = some v) (a : Int) (st : PState)
     (G : List Spec.Name) (hG : v ∈ G) (hgv : GvOk G st.gvars) :
-    ∃ gv', GvOk G gv' ∧
+    ∃ gv', GvNext G st.gvars gv' ∧
       execI ctx (.op2 0x49 i) a st = .ok { st with stack := .leaf .globalVar (.s v) a :: st.stack, gvars := gv' } := by
   have hl : Opcodes.opcodes.lookup 0x49 = some { cls := "GlobalVarOpcode", impl := "GlobalVariableOpcode", nbytes := 2, kind := "param1", attrs := [] } := rfl
   have hk : ¬ ("param1" = "bi" ∨ "param1" = "tri") := by decide
@@ -324,12 +374,20 @@ theorem exec_glob (ctx : Lscr.Ctx) (i : Nat) (v : Spec.Name) (hn : ctx.names[i]?
   unfold process1
   simp only [nameAt, pyGet_some _ _ _ hn, Bind.bind, Except.bind, pure, Except.pure, PState.push]
   by_cases hin : pyIn (.leaf .globalVar (.s v) a) st.gvars = true
-  · exact ⟨st.gvars, hgv, by simp only [hin, if_true]⟩
-  · exact ⟨st.gvars ++ [.leaf .globalVar (.s v) a], hgv.snoc v a hG, by simp only [hin, if_false]; rfl⟩
+  · exact ⟨st.gvars, GvNext.refl hgv, by simp only [hin, if_true]⟩
+  · exact ⟨st.gvars ++ [.leaf .globalVar (.s v) a], GvNext.snoc hgv v a hG hin, by simp only [hin, if_false]; rfl⟩
 
 theorem exec_prop (ctx : Lscr.Ctx) (i : Nat) (v : Spec.Name) (hn : ctx.names[i]? = some v) (a : Int) (st : PState) :
     execI ctx (.op2 0x4a i) a st = .ok { st with stack := .leaf .definedProp (.s v) a :: st.stack } := by
   have hl : Opcodes.opcodes.lookup 0x4a = some { cls := "PropertyNameOpcode", impl := "PropertyNameOpcode", nbytes := 2, kind := "param1", attrs := [] } := rfl
+  have hk : ¬ ("param1" = "bi" ∨ "param1" = "tri") := by decide
+  simp only [execI, hl, hk, if_false]
+  unfold process1
+  simp only [nameAt, pyGet_some _ _ _ hn, Bind.bind, Except.bind, pure, Except.pure, PState.push]
+
+theorem exec_sym (ctx : Lscr.Ctx) (i : Nat) (v : Spec.Name) (hn : ctx.names[i]? = some v) (a : Int) (st : PState) :
+    execI ctx (.op2 0x45 i) a st = .ok { st with stack := .sym (.s v) a true :: st.stack } := by
+  have hl : Opcodes.opcodes.lookup 0x45 = some { cls := "SymbolOpcode", impl := "SymbolOpcode", nbytes := 2, kind := "param1", attrs := [] } := rfl
   have hk : ¬ ("param1" = "bi" ∨ "param1" = "tri") := by decide
   simp only [execI, hl, hk, if_false]
   unfold process1
@@ -428,7 +486,6 @@ theorem exec_calllocal (ctx : Lscr.Ctx) (k : Nat) (f : Spec.Name) (hf : ctx.loca
   unfold process1
   simp only [pyGet_some _ _ _ hf, PState.pop, hs, pushOrStmt, lt_listName, Bind.bind, Except.bind, pure, Except.pure, PState.push,
     PState.addStmt]
-  cases res <;> rfl
 
 /-- opcode 57: call of an external function / command -/
 theorem exec_callext (ctx : Lscr.Ctx) (i : Nat) (f : Spec.Name) (hf : ctx.names[i]? = some f) (a : Int) (st : PState) (res : Bool)
@@ -442,7 +499,101 @@ theorem exec_callext (ctx : Lscr.Ctx) (i : Nat) (f : Spec.Name) (hf : ctx.names[
   unfold process1
   simp only [nameAt, pyGet_some _ _ _ hf, PState.pop, hs, pushOrStmt, lt_listName, Bind.bind, Except.bind, pure, Except.pure, PState.push,
     PState.addStmt]
-  cases res <;> rfl
+
+/-! #### built-in properties without an object: `the <key>` (66), `the <movie property>` (5f), `the <system property>` (5c 07),
+     `the <special property>` (5c 00) -/
+
+theorem exec_key (ctx : Lscr.Ctx) (i : Nat) (v : Spec.Name) (hn : ctx.names[i]? = some v) (a : Int) (st : PState)
+    (ln : Str) (p : Int) (rest : List Node) (hs : st.stack = .loadList ln p [] :: rest) :
+    execI ctx (.op2 0x66 i) a st = .ok { st with stack := .keyAcc a v :: rest } := by
+  have hl : Opcodes.opcodes.lookup 0x66 = some { cls := "KeyPropertyAccesorOpcode", impl := "KeyPropertyAccesorOpcode", nbytes := 2, kind := "param1", attrs := [] } := rfl
+  have hk : ¬ ("param1" = "bi" ∨ "param1" = "tri") := by decide
+  simp only [execI, hl, hk, if_false]
+  unfold process1
+  simp only [nameAt, pyGet_some _ _ _ hn, PState.pop, hs, Bind.bind, Except.bind, pure, Except.pure, PState.push]
+
+theorem knownAssign_owner : ∀ kv ∈ Gen.PropTables.knownPropertiesAssign, startsWith kv.2.toList (S "_") = true := by decide
+
+theorem dictGet_mem (d : List (String × String)) (key o : Str) (h : dictGet d key = .ok o) : ∃ kv ∈ d, kv.2.toList = o := by
+  unfold dictGet at h
+  split at h
+  · rename_i kv hf
+    simp only [Except.ok.injEq] at h
+    exact ⟨kv, List.mem_of_find?_eq_some hf, h⟩
+  · cases h
+
+theorem exec_movie (ctx : Lscr.Ctx) (i : Nat) (v : Spec.Name) (hn : ctx.names[i]? = some v) (a : Int) (st : PState) :
+    ∃ n, Emb (.movie v) n ∧ execI ctx (.op2 0x5f i) a st = .ok { st with stack := n :: st.stack } := by
+  have hl : Opcodes.opcodes.lookup 0x5f = some { cls := "LoadPropertyOpcode", impl := "LoadPropertyOpcode", nbytes := 2, kind := "param1", attrs := [] } := rfl
+  have hk : ¬ ("param1" = "bi" ∨ "param1" = "tri") := by decide
+  simp only [execI, hl, hk, if_false]
+  unfold process1
+  simp only [nameAt, pyGet_some _ _ _ hn, Bind.bind, Except.bind, pure, Except.pure, PState.push]
+  cases hd : dictGet Gen.PropTables.knownPropertiesAssign v with
+  | ok o =>
+    obtain ⟨kv, hkv, rfl⟩ := dictGet_mem _ _ _ hd
+    exact ⟨_, Or.inr ⟨a, a, _, rfl, knownAssign_owner kv hkv⟩, rfl⟩
+  | error e => exact ⟨_, Or.inl ⟨a, rfl⟩, rfl⟩
+
+theorem toInt_natStr (k : Nat) : (Lscr.Name.s (natStr k)).toInt = .ok (k : Int) := pyIntOfStr_natStr k
+
+def sysRowOk (x : Nat × String) : Bool :=
+  match dictNth Gen.PropTables.systemProperties (x.1 : Int) with
+  | .ok (n, o) => n == nameOrUnknown tblSys x.1 && startsWith o (S "_")
+  | .error _ => false
+
+theorem sys_rows : tblSys.all sysRowOk = true := by decide +kernel
+
+theorem sys_table (k : Nat) (h : tblSys.any (fun x => x.1 == k) = true) :
+    ∃ o, dictNth Gen.PropTables.systemProperties (k : Int) = .ok (nameOrUnknown tblSys k, o) ∧ startsWith o (S "_") = true := by
+  rw [List.any_eq_true] at h
+  obtain ⟨x, hx, hk⟩ := h
+  have hk' : x.1 = k := by simpa using hk
+  have := List.all_eq_true.mp sys_rows x hx
+  rw [hk'] at this
+  unfold sysRowOk at this
+  rw [hk'] at this
+  split at this
+  · rename_i n o heq
+    simp only [Bool.and_eq_true, beq_iff_eq] at this
+    exact ⟨o, by rw [heq, this.1], this.2⟩
+  · cases this
+
+theorem bi_lookup_5c : Opcodes.opcodes.lookup 0x5c = some { cls := "SoundPropertiesOpcode", impl := "SoundPropertiesOpcode", nbytes := 2, kind := "bi", attrs := [] } := rfl
+
+theorem exec_sys (ctx : Lscr.Ctx) (k : Nat) (hk : tblSys.any (fun x => x.1 == k) = true) (a : Int) (st : PState) (p : Int) (rest : List Node)
+    (hs : st.stack = .leaf .const (.s (natStr k)) p :: rest) :
+    ∃ n, Emb (.the .sys k []) n ∧ execI ctx (.op2 0x5c 7) a st = .ok { st with stack := n :: rest } := by
+  obtain ⟨o, hd, ho⟩ := sys_table k hk
+  have hb : Opcodes.biOpcodes.lookup (0x5c * 256 + 7) = some { cls := "SystemPropertiesOpcode", impl := "SystemPropertiesOpcode", nbytes := 2, kind := "bi", attrs := [] } := rfl
+  have hkb : ("bi" = "bi" ∨ "bi" = "tri") := Or.inl rfl
+  simp only [execI, bi_lookup_5c, hkb, if_true, hb]
+  have hp : process ctx { cls := "SystemPropertiesOpcode", impl := "SystemPropertiesOpcode", nbytes := 2, kind := "bi", attrs := [] } 0 0 a st
+      = process0 ctx { cls := "SystemPropertiesOpcode", impl := "SystemPropertiesOpcode", nbytes := 2, kind := "bi", attrs := [] } a st := by
+    simp [process, readsP1, readsP2]
+  rw [hp]
+  unfold process0
+  simp only [systemProps, popInt, PState.pop, hs, Node.name, toInt_natStr, hd, Bind.bind, Except.bind, pure, Except.pure, PState.push]
+  by_cases ht : st.tell = true
+  · exact ⟨_, ⟨a, a, S "tell_obj", rfl, Or.inr rfl⟩, by simp only [ht, if_true]⟩
+  · exact ⟨_, ⟨a, a, o, rfl, Or.inl ho⟩, by simp only [ht, if_false]; rfl⟩
+
+theorem special_table : ∀ k, k < 6 → listGet Gen.PropTables.specialProperties (k : Int) = .ok (nameOrUnknown tblSpecial k) := by decide +kernel
+
+theorem exec_special (ctx : Lscr.Ctx) (k : Nat) (hk : k < 6) (a : Int) (st : PState) (p : Int) (rest : List Node)
+    (hs : st.stack = .leaf .const (.s (natStr k)) p :: rest) :
+    execI ctx (.op2 0x5c 0) a st = .ok { st with stack := .leaf .propName (.s (nameOrUnknown tblSpecial k)) a :: rest } := by
+  have hb : Opcodes.biOpcodes.lookup (0x5c * 256 + 0) = some { cls := "SpecialPropertiesOpcode", impl := "SpecialPropertiesOpcode", nbytes := 2, kind := "bi", attrs := [] } := rfl
+  have hkb : ("bi" = "bi" ∨ "bi" = "tri") := Or.inl rfl
+  simp only [execI, bi_lookup_5c, hkb, if_true, hb]
+  have hp : process ctx { cls := "SpecialPropertiesOpcode", impl := "SpecialPropertiesOpcode", nbytes := 2, kind := "bi", attrs := [] } 0 0 a st
+      = process0 ctx { cls := "SpecialPropertiesOpcode", impl := "SpecialPropertiesOpcode", nbytes := 2, kind := "bi", attrs := [] } a st := by
+    simp [process, readsP1, readsP2]
+  rw [hp]
+  unfold process0
+  have hlt : ((k : Nat) : Int) < 6 := by omega
+  simp only [specialProps, popInt, PState.pop, hs, Node.name, toInt_natStr, hlt, if_true, special_table k hk, Bind.bind, Except.bind, pure,
+    Except.pure, PState.push]
 
 theorem embL_length : ∀ (as : List Expr) (ns : List Node), EmbL as ns → ns.length = as.length
   | [], ns, h => by simp only [EmbL] at h; subst h; rfl
@@ -450,20 +601,107 @@ theorem embL_length : ∀ (as : List Expr) (ns : List Node), EmbL as ns → ns.l
     obtain ⟨x, xs, rfl, _, hxs⟩ := h
     simp [embL_length es xs hxs]
 
+theorem idxOf_contains (n : Spec.Name) (l : List Spec.Name) (k i : Nat) (h : idxOf n l k = some i) : l.contains n = true := by
+  have := (idxOf_get n l k i h).2
+  rw [List.contains_iff_mem]
+  exact List.mem_of_getElem? this
+
+theorem idxOf_not_contains (n : Spec.Name) (l : List Spec.Name) (k : Nat) (h : idxOf n l k = none) : l.contains n = false := by
+  have := idxOf_none n l k h
+  cases hc : l.contains n with
+  | false => rfl
+  | true => exact absurd (List.contains_iff_mem.mp hc) this
+
+mutual
+theorem EmbH.toEmb (hs : List Spec.Name) : ∀ (e : Expr) (n : Node), EmbH hs e n → Emb e n
+  | .int _, _, h => h
+  | .str _, _, h => h
+  | .sym _, _, h => h
+  | .var .loc _, _, h => h
+  | .var .param _, _, h => h
+  | .var .glob _, _, h => h
+  | .var .prop _, _, h => h
+  | .un _ a, _, h => by obtain ⟨p, x, rfl, hx⟩ := h; exact ⟨p, x, rfl, EmbH.toEmb hs a x hx⟩
+  | .bin _ a b, _, h => by
+    obtain ⟨p, x, y, rfl, hx, hy⟩ := h
+    exact ⟨p, x, y, rfl, EmbH.toEmb hs a x hx, EmbH.toEmb hs b y hy⟩
+  | .field a, _, h => by obtain ⟨p, x, rfl, hx⟩ := h; exact ⟨p, x, rfl, EmbH.toEmb hs a x hx⟩
+  | .call f as, _, h => by
+    obtain ⟨p, p', ops, rfl, hops⟩ := h
+    exact ⟨p, p', _, ops, rfl, EmbLH.toEmbL hs as ops hops⟩
+  | .list as, _, h => by
+    obtain ⟨p, p', ops, rfl, hops⟩ := h
+    exact ⟨p, p', ops, rfl, EmbLH.toEmbL hs as ops hops⟩
+  | .float _ _, _, h => by simp [EmbH] at h
+  | .me, _, h => by simp [EmbH] at h
+  | .mcall _ _ _, _, h => by simp [EmbH] at h
+  | .plist _, _, h => by simp [EmbH] at h
+  | .the _ _ _, _, h => by simp [EmbH] at h
+  | .key _, _, h => by simp [EmbH] at h
+  | .movie _, _, h => by simp [EmbH] at h
+  | .oprop _ _, _, h => by simp [EmbH] at h
+  | .chunk _ _ _ _, _, h => by simp [EmbH] at h
+theorem EmbLH.toEmbL (hs : List Spec.Name) : ∀ (as : List Expr) (ns : List Node), EmbLH hs as ns → EmbL as ns
+  | [], _, h => h
+  | e :: es, _, h => by
+    obtain ⟨x, xs, rfl, hx, hxs⟩ := h
+    exact ⟨x, xs, rfl, EmbH.toEmb hs e x hx, EmbLH.toEmbL hs es xs hxs⟩
+end
+
+theorem EmbSH.toEmbS (hs : List Spec.Name) (s : Stmt) (n : Node) (h : EmbSH hs s n) : EmbS s n := by
+  cases s with
+  | set lv v => obtain ⟨p, q, l, r, rfl, hl, hr⟩ := h; exact ⟨p, q, l, r, rfl, hl, EmbH.toEmb hs v r hr⟩
+  | call f as => obtain ⟨p, q, q', ops, rfl, hops⟩ := h; exact ⟨p, q, q', _, ops, rfl, EmbLH.toEmbL hs as ops hops⟩
+  | exit => exact h
+  | _ => simp [EmbSH] at h
+
+theorem EmbSsH.toEmbSs (hs : List Spec.Name) : ∀ (ss : List Stmt) (ns : List Node), EmbSsH hs ss ns → EmbSs ss ns
+  | [], _, h => h
+  | s :: ss, _, h => by
+    obtain ⟨x, xs, rfl, hx, hxs⟩ := h
+    exact ⟨x, xs, rfl, EmbSH.toEmbS hs s x hx, EmbSsH.toEmbSs hs ss xs hxs⟩
+
+theorem embLH_length (hs : List Spec.Name) (as : List Expr) (ns : List Node) (h : EmbLH hs as ns) : ns.length = as.length :=
+  embL_length as ns (EmbLH.toEmbL hs as ns h)
+
 /-! ### the relation between the scheme's lowering context and the model's parse context -/
 
 /-- what the container layer (L5) establishes: the model's context holds the scheme's final name table and constant pool, the
     handler's local / parameter tables as nodes, and the script's handler names -/
 structure Rel (c : Spec.Ctx) (sF : St) (ctx : Lscr.Ctx) : Prop where
   names : ctx.names = sF.names
-  ints : ∀ (k n : Nat), sF.consts[k]? = some (Spec.Const.int n) → ctx.constants[k]? = some (Lscr.Name.s (natStr n))
+  consts : ∀ (k : Nat) (cst : Spec.Const), sF.consts[k]? = some cst → ctx.constants[k]? = some (constName cst)
   locals : ∀ (v : Spec.Name) (j : Nat), idxOf v c.locals 0 = some j → ∃ p, ctx.localVars[j]? = some (.leaf .localVar (.s v) p)
   params : ∀ (v : Spec.Name) (o : Nat), c.paramOff v = some o → ∃ j p, o = 6 * j ∧ ctx.params[j]? = some (.leaf .paramName (.s v) p)
   lfn : ∀ (f : Spec.Name) (k : Nat), idxOf f c.handlers 0 = some k → ctx.localFuncs[k]? = some f
 
 /-- result of running the code of an expression: one node pushed, the globals list possibly extended -/
-def Pushed (G : List Spec.Name) (e : Expr) (ctx : Lscr.Ctx) (a : Nat) (code : List Instr) (st : PState) : Prop :=
-  ∃ n gv', Emb e n ∧ GvOk G gv' ∧ runIs ctx a code st = .ok { st with stack := n :: st.stack, gvars := gv' }
+def Pushed (G hs : List Spec.Name) (e : Expr) (ctx : Lscr.Ctx) (a : Nat) (code : List Instr) (st : PState) : Prop :=
+  ∃ n gv', EmbH hs e n ∧ GvNext G st.gvars gv' ∧ runIs ctx a code st = .ok { st with stack := n :: st.stack, gvars := gv' }
+
+/-- a pool constant: `44 6k` / `84 6k` pushes the model's constant number `k` -/
+theorem lit_ok (cst : Spec.Const) (hg : GoodConst cst) (s0 s1 : St) (code : List Instr)
+    (h : (do litInstr (← addConst cst) : M (List Instr)) s0 = .ok (code, s1)) :
+    Ext s0 s1 ∧ (∀ i ∈ code, i.opc ≠ 153) ∧ ∀ (c : Spec.Ctx) (sF : St) (ctx : Lscr.Ctx), Ext s1 sF → Rel c sF ctx →
+      ∀ (a : Int) (st : PState), st.bpc = 6 → ∃ i, code = [i] ∧
+        execI ctx i a st = .ok { st with stack := .leaf .const (constName cst) a :: st.stack } := by
+  simp only [M_bind_ok] at h
+  obtain ⟨k, s', hadd, hlit⟩ := h
+  obtain ⟨hext, hk⟩ := addConst_ok _ hg _ _ _ hadd
+  unfold litInstr at hlit
+  split at hlit
+  · simp only [M_pure_ok, Prod.mk.injEq] at hlit
+    obtain ⟨rfl, rfl⟩ := hlit
+    refine ⟨hext, by simp [Instr.opc], ?_⟩
+    intro c sF ctx hF hrel a st hb
+    exact ⟨_, rfl, exec_lit1 ctx k _ (hrel.consts k cst (hF.const hk)) a st hb⟩
+  · split at hlit
+    · simp only [M_pure_ok, Prod.mk.injEq] at hlit
+      obtain ⟨rfl, rfl⟩ := hlit
+      refine ⟨hext, by simp [Instr.opc], ?_⟩
+      intro c sF ctx hF hrel a st hb
+      exact ⟨_, rfl, exec_lit2 ctx k _ (hrel.consts k cst (hF.const hk)) a st hb⟩
+    · simp [Spec.fail] at hlit
 
 theorem lowerInt_ok (n : Nat) (s0 s1 : St) (code : List Instr) (h : lowerInt n s0 = .ok (code, s1)) :
     Ext s0 s1 ∧ (∀ i ∈ code, i.opc ≠ 153) ∧ ∀ (c : Spec.Ctx) (sF : St) (ctx : Lscr.Ctx), Ext s1 sF → Rel c sF ctx →
@@ -493,23 +731,7 @@ theorem lowerInt_ok (n : Nat) (s0 s1 : St) (code : List Instr) (h : lowerInt n s
         exact ⟨_, rfl, exec_int2 ctx n h2 a st⟩
       · split at h
         · rename_i h31
-          simp only [M_bind_ok] at h
-          obtain ⟨k, s', hadd, hlit⟩ := h
-          obtain ⟨hext, hk⟩ := addConst_ok _ (show GoodConst (.int n) from h31) _ _ _ hadd
-          unfold litInstr at hlit
-          split at hlit
-          · simp only [M_pure_ok, Prod.mk.injEq] at hlit
-            obtain ⟨rfl, rfl⟩ := hlit
-            refine ⟨hext, by simp [Instr.opc], ?_⟩
-            intro c sF ctx hF hrel a st hb
-            exact ⟨_, rfl, exec_lit1 ctx k _ (hrel.ints k n (hF.const hk)) a st hb⟩
-          · split at hlit
-            · simp only [M_pure_ok, Prod.mk.injEq] at hlit
-              obtain ⟨rfl, rfl⟩ := hlit
-              refine ⟨hext, by simp [Instr.opc], ?_⟩
-              intro c sF ctx hF hrel a st hb
-              exact ⟨_, rfl, exec_lit2 ctx k _ (hrel.ints k n (hF.const hk)) a st hb⟩
-            · simp [Spec.fail] at hlit
+          exact lit_ok (.int n) (show GoodConst (.int n) from h31) s0 s1 code h
         · simp [Spec.fail] at h
 
 theorem runIs_single (ctx : Lscr.Ctx) (a : Nat) (i : Instr) (st : PState) : runIs ctx a [i] st = execI ctx i (a : Int) st := by
@@ -530,14 +752,32 @@ theorem stack_lemma : ∀ (e : Expr), FragE e = true → ∀ (c : Spec.Ctx) (s0 
     lowerExpr c e s0 = .ok (code, s1) →
     Ext s0 s1 ∧ (∀ i ∈ code, i.opc ≠ 153) ∧
     ∀ (sF : St) (ctx : Lscr.Ctx), Ext s1 sF → Rel c sF ctx → ∀ (G : List Spec.Name), (∀ g ∈ e.vars .glob, g ∈ G) →
-      ∀ (a : Nat) (st : PState), st.bpc = 6 → GvOk G st.gvars → Pushed G e ctx a code st
+      ∀ (a : Nat) (st : PState), st.bpc = 6 → GvOk G st.gvars → Pushed G c.handlers e ctx a code st
   | .int n, _, c, s0, s1, code, h => by
     rw [lowerExpr] at h
     obtain ⟨hext, hop, hrun⟩ := lowerInt_ok n s0 s1 code h
     refine ⟨hext, hop, ?_⟩
     intro sF ctx hF hrel G _ a st hb hgv
     obtain ⟨i, rfl, hi⟩ := hrun c sF ctx hF hrel (a : Int) st hb
-    exact ⟨_, st.gvars, ⟨(a : Int), rfl⟩, hgv, by rw [runIs_single, hi]⟩
+    exact ⟨_, st.gvars, ⟨(a : Int), rfl⟩, GvNext.refl hgv, by rw [runIs_single, hi]⟩
+  | .str v, hf, c, s0, s1, code, h => by
+    simp only [FragE] at hf
+    rw [lowerExpr] at h
+    obtain ⟨hext, hop, hrun⟩ := lit_ok (.str v) (show GoodConst (.str v) from hf) s0 s1 code h
+    refine ⟨hext, hop, ?_⟩
+    intro sF ctx hF hrel G _ a st hb hgv
+    obtain ⟨i, rfl, hi⟩ := hrun c sF ctx hF hrel (a : Int) st hb
+    exact ⟨_, st.gvars, ⟨(a : Int), rfl⟩, GvNext.refl hgv, by rw [runIs_single, hi]; rfl⟩
+  | .sym v, _, c, s0, s1, code, h => by
+    rw [lowerExpr] at h
+    simp only [M_bind_ok] at h
+    obtain ⟨i, s', hn, h⟩ := h
+    obtain ⟨hext, hget, hlt, _⟩ := nameIdx_ok _ _ _ _ hn
+    obtain ⟨rfl, rfl, hx⟩ := op2c_ok _ _ _ _ _ h
+    refine ⟨hext, by simp [Instr.opc], ?_⟩
+    intro sF ctx hF hrel G hG a st hb hgv
+    have hnm : ctx.names[i]? = some v := by rw [hrel.names]; exact hF.name hget
+    exact ⟨_, st.gvars, ⟨(a : Int), rfl⟩, GvNext.refl hgv, by rw [runIs_single, exec_sym ctx i v hnm (a : Int) st]⟩
   | .var .loc v, _, c, s0, s1, code, h => by
     rw [lowerExpr] at h
     cases ho : c.localOff v with
@@ -556,7 +796,7 @@ theorem stack_lemma : ∀ (e : Expr), FragE e = true → ∀ (c : Spec.Ctx) (s0 
         simp only [Option.map_some, Option.some.injEq] at ho
         subst ho
         obtain ⟨p, hp⟩ := hrel.locals v j hi
-        exact ⟨_, st.gvars, ⟨p, rfl⟩, hgv, by rw [runIs_single, exec_loc ctx j _ hp (a : Int) st hb]⟩
+        exact ⟨_, st.gvars, ⟨p, rfl⟩, GvNext.refl hgv, by rw [runIs_single, exec_loc ctx j _ hp (a : Int) st hb]⟩
   | .var .param v, _, c, s0, s1, code, h => by
     rw [lowerExpr] at h
     cases ho : c.paramOff v with
@@ -568,7 +808,7 @@ theorem stack_lemma : ∀ (e : Expr), FragE e = true → ∀ (c : Spec.Ctx) (s0 
       refine ⟨Ext.refl _, by simp [Instr.opc], ?_⟩
       intro sF ctx hF hrel G _ a st hb hgv
       obtain ⟨j, p, rfl, hp⟩ := hrel.params v o ho
-      exact ⟨_, st.gvars, ⟨(a : Int), rfl⟩, hgv, by rw [runIs_single, exec_param ctx j _ p hp (a : Int) st hb]⟩
+      exact ⟨_, st.gvars, ⟨(a : Int), rfl⟩, GvNext.refl hgv, by rw [runIs_single, exec_param ctx j _ p hp (a : Int) st hb]⟩
   | .var .glob v, _, c, s0, s1, code, h => by
     rw [lowerExpr] at h
     simp only [M_bind_ok] at h
@@ -589,7 +829,7 @@ theorem stack_lemma : ∀ (e : Expr), FragE e = true → ∀ (c : Spec.Ctx) (s0 
     refine ⟨hext, by simp [Instr.opc], ?_⟩
     intro sF ctx hF hrel G hG a st hb hgv
     have hnm : ctx.names[i]? = some v := by rw [hrel.names]; exact hF.name hget
-    exact ⟨_, st.gvars, ⟨(a : Int), rfl⟩, hgv, by rw [runIs_single, exec_prop ctx i v hnm (a : Int) st]⟩
+    exact ⟨_, st.gvars, ⟨(a : Int), rfl⟩, GvNext.refl hgv, by rw [runIs_single, exec_prop ctx i v hnm (a : Int) st]⟩
   | .un o x, hf, c, s0, s1, code, h => by
     have hfx : FragE x = true := by
       cases o <;> simp only [FragE, Bool.and_eq_true] at hf
@@ -629,8 +869,8 @@ theorem stack_lemma : ∀ (e : Expr), FragE e = true → ∀ (c : Spec.Ctx) (s0 
     have hG' : ∀ g ∈ x.vars .glob ++ y.vars .glob, g ∈ G := by simpa [Expr.vars] using hG
     obtain ⟨n1, gv1, hemb1, hgv1, hr1⟩ := hrun1 sF ctx (hext2.trans hF) hrel G (vars_sub_left hG') a st hb hgv
     obtain ⟨n2, gv2, hemb2, hgv2, hr2⟩ := hrun2 sF ctx hF hrel G (vars_sub_right hG') (a + codeSize cx)
-      { st with stack := n1 :: st.stack, gvars := gv1 } hb hgv1
-    refine ⟨_, gv2, ⟨((a + codeSize (cx ++ cy) : Nat) : Int), n1, n2, rfl, hemb1, hemb2⟩, hgv2, ?_⟩
+      { st with stack := n1 :: st.stack, gvars := gv1 } hb hgv1.1
+    refine ⟨_, gv2, ⟨((a + codeSize (cx ++ cy) : Nat) : Int), n1, n2, rfl, hemb1, hemb2⟩, hgv1.trans hgv2, ?_⟩
     rw [runIs_append, runIs_append, hr1]
     simp only [Except.bind]
     rw [hr2]
@@ -655,7 +895,7 @@ theorem stack_lemma : ∀ (e : Expr), FragE e = true → ∀ (c : Spec.Ctx) (s0 
     rw [runIs_single, exec_field ctx _ _ n st.stack rfl]
   | .call f as, hf, c, s0, s1, code, h => by
     simp only [FragE, Bool.and_eq_true] at hf
-    obtain ⟨⟨⟨_, _⟩, _⟩, hfl⟩ := hf
+    obtain ⟨_, hfl⟩ := hf
     rw [lowerExpr] at h
     simp only [M_bind_ok] at h
     obtain ⟨ca, s', ha, cn, s'', hn, h⟩ := h
@@ -676,14 +916,16 @@ theorem stack_lemma : ∀ (e : Expr), FragE e = true → ∀ (c : Spec.Ctx) (s0 
         · simp only [List.mem_singleton] at hj; subst hj; simp [Instr.opc]
       intro sF ctx hF hrel G hG a st hb hgv
       obtain ⟨ns, gv1, hemb, hgv1, hr1⟩ := hrun sF ctx hF hrel G (by simpa [Expr.vars] using hG) a st hb hgv
-      have hlen := embL_length as ns hemb
+      have hlen := embLH_length _ as ns hemb
       have hle : as.length ≤ (ns.reverse ++ st.stack).length := by simp; omega
       have htake : (ns.reverse ++ st.stack).take as.length = ns.reverse := by
         rw [List.take_append_of_le_length (by simp; omega), List.take_of_length_le (by simp; omega)]
       have hdrop : (ns.reverse ++ st.stack).drop as.length = st.stack := by
         rw [List.drop_append_of_le_length (by simp; omega), List.drop_of_length_le (by simp; omega), List.nil_append]
-      refine ⟨_, gv1, ⟨((a + codeSize (ca ++ [i]) : Nat) : Int), ((a + codeSize ca : Nat) : Int), true, ns, rfl, hemb⟩, hgv1, ?_⟩
-      rw [runIs_append, runIs_append, hr1]
+      have hcont := idxOf_contains f c.handlers 0 k hidx
+      refine ⟨.callFn (.s f) ((a + codeSize (ca ++ [i]) : Nat) : Int) (.loadList (S "<load_list>") ((a + codeSize ca : Nat) : Int) ns.reverse) true false (c.handlers.contains f) .none,
+        gv1, ⟨_, _, ns, rfl, hemb⟩, hgv1, ?_⟩
+      rw [hcont, runIs_append, runIs_append, hr1]
       simp only [Except.bind]
       rw [runIs_single, hiex ctx _ { st with stack := ns.reverse ++ st.stack, gvars := gv1 } hle]
       simp only [htake, hdrop]
@@ -705,14 +947,16 @@ theorem stack_lemma : ∀ (e : Expr), FragE e = true → ∀ (c : Spec.Ctx) (s0 
       intro sF ctx hF hrel G hG a st hb hgv
       have hnm : ctx.names[ni]? = some f := by rw [hrel.names]; exact hF.name hget
       obtain ⟨ns, gv1, hemb, hgv1, hr1⟩ := hrun sF ctx (hext2.trans hF) hrel G (by simpa [Expr.vars] using hG) a st hb hgv
-      have hlen := embL_length as ns hemb
+      have hlen := embLH_length _ as ns hemb
       have hle : as.length ≤ (ns.reverse ++ st.stack).length := by simp; omega
       have htake : (ns.reverse ++ st.stack).take as.length = ns.reverse := by
         rw [List.take_append_of_le_length (by simp; omega), List.take_of_length_le (by simp; omega)]
       have hdrop : (ns.reverse ++ st.stack).drop as.length = st.stack := by
         rw [List.drop_append_of_le_length (by simp; omega), List.drop_of_length_le (by simp; omega), List.nil_append]
-      refine ⟨_, gv1, ⟨((a + codeSize (ca ++ [i]) : Nat) : Int), ((a + codeSize ca : Nat) : Int), false, ns, rfl, hemb⟩, hgv1, ?_⟩
-      rw [runIs_append, runIs_append, hr1]
+      have hcont := idxOf_not_contains f c.handlers 0 hidx
+      refine ⟨.callFn (.s f) ((a + codeSize (ca ++ [i]) : Nat) : Int) (.loadList (S "<load_list>") ((a + codeSize ca : Nat) : Int) ns.reverse) true false (c.handlers.contains f) .none,
+        gv1, ⟨_, _, ns, rfl, hemb⟩, hgv1, ?_⟩
+      rw [hcont, runIs_append, runIs_append, hr1]
       simp only [Except.bind]
       rw [runIs_single, hiex ctx _ { st with stack := ns.reverse ++ st.stack, gvars := gv1 } hle]
       simp only [htake, hdrop]
@@ -734,7 +978,7 @@ theorem stack_lemma : ∀ (e : Expr), FragE e = true → ∀ (c : Spec.Ctx) (s0 
       · simp only [List.mem_singleton] at hj; subst hj; simp [Instr.opc]
     intro sF ctx hF hrel G hG a st hb hgv
     obtain ⟨ns, gv1, hemb, hgv1, hr1⟩ := hrun sF ctx hF hrel G (by simpa [Expr.vars] using hG) a st hb hgv
-    have hlen := embL_length as ns hemb
+    have hlen := embLH_length _ as ns hemb
     have hle : as.length ≤ (ns.reverse ++ st.stack).length := by simp; omega
     have htake : (ns.reverse ++ st.stack).take as.length = ns.reverse := by
       rw [List.take_append_of_le_length (by simp; omega), List.take_of_length_le (by simp; omega)]
@@ -747,9 +991,7 @@ theorem stack_lemma : ∀ (e : Expr), FragE e = true → ∀ (c : Spec.Ctx) (s0 
     simp only [htake, hdrop]
     rw [runIs_single, exec_tolist ctx _ _ _ st.stack rfl]
     rfl
-  | .str _, hf, _, _, _, _, _ => by simp [FragE] at hf
   | .float _ _, hf, _, _, _, _, _ => by simp [FragE] at hf
-  | .sym _, hf, _, _, _, _, _ => by simp [FragE] at hf
   | .me, hf, _, _, _, _, _ => by simp [FragE] at hf
   | .mcall _ _ _, hf, _, _, _, _, _ => by simp [FragE] at hf
   | .plist _, hf, _, _, _, _, _ => by simp [FragE] at hf
@@ -764,14 +1006,14 @@ theorem args_lemma : ∀ (as : List Expr), FragL as = true → ∀ (c : Spec.Ctx
     Ext s0 s1 ∧ (∀ i ∈ code, i.opc ≠ 153) ∧
     ∀ (sF : St) (ctx : Lscr.Ctx), Ext s1 sF → Rel c sF ctx → ∀ (G : List Spec.Name), (∀ g ∈ Expr.varsList .glob as, g ∈ G) →
       ∀ (a : Nat) (st : PState), st.bpc = 6 → GvOk G st.gvars →
-        ∃ ns gv', EmbL as ns ∧ GvOk G gv' ∧ runIs ctx a code st = .ok { st with stack := ns.reverse ++ st.stack, gvars := gv' }
+        ∃ ns gv', EmbLH c.handlers as ns ∧ GvNext G st.gvars gv' ∧ runIs ctx a code st = .ok { st with stack := ns.reverse ++ st.stack, gvars := gv' }
   | [], _, c, s0, s1, code, h => by
     rw [lowerArgs] at h
     simp only [M_pure_ok, Prod.mk.injEq] at h
     obtain ⟨rfl, rfl⟩ := h
     refine ⟨Ext.refl _, by simp, ?_⟩
     intro sF ctx _ _ G _ a st _ hgv
-    exact ⟨[], st.gvars, rfl, hgv, by simp [runIs]⟩
+    exact ⟨[], st.gvars, rfl, GvNext.refl hgv, by simp [runIs]⟩
   | e :: es, hf, c, s0, s1, code, h => by
     simp only [FragL, Bool.and_eq_true] at hf
     rw [lowerArgs] at h
@@ -788,13 +1030,27 @@ theorem args_lemma : ∀ (as : List Expr), FragL as = true → ∀ (c : Spec.Ctx
     have hG' : ∀ g ∈ e.vars .glob ++ Expr.varsList .glob es, g ∈ G := by simpa [Expr.varsList] using hG
     obtain ⟨n, gv1, hemb, hgv1, hr1⟩ := hrun1 sF ctx (hext2.trans hF) hrel G (vars_sub_left hG') a st hb hgv
     obtain ⟨ns, gv2, hembs, hgv2, hr2⟩ := hrun2 sF ctx hF hrel G (vars_sub_right hG') (a + codeSize ce)
-      { st with stack := n :: st.stack, gvars := gv1 } hb hgv1
-    refine ⟨n :: ns, gv2, ⟨n, ns, rfl, hemb, hembs⟩, hgv2, ?_⟩
+      { st with stack := n :: st.stack, gvars := gv1 } hb hgv1.1
+    refine ⟨n :: ns, gv2, ⟨n, ns, rfl, hemb, hembs⟩, hgv1.trans hgv2, ?_⟩
     rw [runIs_append, hr1]
     simp only [Except.bind]
     rw [hr2]
     simp [List.append_assoc]
 end
+
+def exitNode (p q : Int) : Node := .stmt p (.callFn (.s (S "exit")) q .none true false false .none)
+
+theorem exec_exit (ctx : Lscr.Ctx) (b : Nat) (hb : b = 1 ∨ b = 2) (a : Int) (st : PState) :
+    execI ctx (.op1 b) a st = .ok { st with stmts := st.stmts ++ [exitNode a a] } := by
+  rcases hb with rfl | rfl
+  · have hl : Opcodes.opcodes.lookup 1 = some { cls := "ExitOpcode", impl := "ExitOpcode", nbytes := 1, kind := "plain", attrs := [] } := rfl
+    simp only [execI, hl]
+    unfold process0
+    simp only [PState.addStmt, exitNode]
+  · have hl : Opcodes.opcodes.lookup 2 = some { cls := "ExitFactoryMethodOpcode", impl := "ExitFactoryMethodOpcode", nbytes := 1, kind := "plain", attrs := [] } := rfl
+    simp only [execI, hl]
+    unfold process0
+    simp only [PState.addStmt, exitNode]
 
 /-! ### L3: statements -/
 
@@ -820,7 +1076,7 @@ theorem exec_setparam (ctx : Lscr.Ctx) (j : Nat) (x : Node) (hp : ctx.params[j]?
 
 theorem exec_setglob (ctx : Lscr.Ctx) (i : Nat) (v : Spec.Name) (hn : ctx.names[i]? = some v) (a : Int) (st : PState)
     (G : List Spec.Name) (hG : v ∈ G) (hgv : GvOk G st.gvars) (r : Node) (rest : List Node) (hs : st.stack = r :: rest) :
-    ∃ gv', GvOk G gv' ∧
+    ∃ gv', GvNext G st.gvars gv' ∧
       execI ctx (.op2 0x4f i) a st = .ok { st with stack := rest, gvars := gv', stmts := st.stmts ++ [.stmt a (.binary (S "assign") a (.leaf .globalVar (.s v) a) r)] } := by
   have hl : Opcodes.opcodes.lookup 0x4f = some { cls := "AssignGlobalVarOpcode", impl := "AssignGlobalVariableOpcode", nbytes := 2, kind := "param1", attrs := [] } := rfl
   have hk : ¬ ("param1" = "bi" ∨ "param1" = "tri") := by decide
@@ -828,8 +1084,8 @@ theorem exec_setglob (ctx : Lscr.Ctx) (i : Nat) (v : Spec.Name) (hn : ctx.names[
   unfold process1
   simp only [nameAt, pyGet_some _ _ _ hn, PState.pop, hs, PState.addStmt, assignNode, Bind.bind, Except.bind, pure, Except.pure]
   by_cases hin : pyIn (.leaf .globalVar (.s v) a) st.gvars = true
-  · exact ⟨st.gvars, hgv, by simp only [hin, if_true]⟩
-  · exact ⟨st.gvars ++ [.leaf .globalVar (.s v) a], hgv.snoc v a hG, by simp only [hin, Bool.false_eq_true, if_false]⟩
+  · exact ⟨st.gvars, GvNext.refl hgv, by simp only [hin, if_true]⟩
+  · exact ⟨st.gvars ++ [.leaf .globalVar (.s v) a], GvNext.snoc hgv v a hG hin, by simp only [hin, Bool.false_eq_true, if_false]⟩
 
 theorem exec_setprop (ctx : Lscr.Ctx) (i : Nat) (v : Spec.Name) (hn : ctx.names[i]? = some v) (hpr : ctx.props.contains v = true)
     (a : Int) (st : PState) (r : Node) (rest : List Node) (hs : st.stack = r :: rest) :
@@ -840,17 +1096,29 @@ theorem exec_setprop (ctx : Lscr.Ctx) (i : Nat) (v : Spec.Name) (hn : ctx.names[
   unfold process1
   simp only [nameAt, pyGet_some _ _ _ hn, hpr, if_true, PState.pop, hs, PState.addStmt, assignNode, Bind.bind, Except.bind, pure, Except.pure]
 
-/-- result of running the code of a statement: one `Statement` appended, the expression stack as before -/
-def Stepped (G : List Spec.Name) (s : Stmt) (ctx : Lscr.Ctx) (a : Nat) (code : List Instr) (st : PState) : Prop :=
-  ∃ n gv', EmbS s n ∧ PlainStmt n ∧ GvOk G gv' ∧ runIs ctx a code st = .ok { st with stmts := st.stmts ++ [n], gvars := gv' }
+/-- the statement node carries the address of an instruction of its own code -/
+def StmtIn (a len : Nat) (n : Node) : Prop := ∃ p c, n = .stmt p c ∧ (a : Int) ≤ p ∧ p < ((a + len : Nat) : Int)
 
-/-- **L3**, `set <variable> = e` for the four variable kinds -/
-theorem stmt_lemma (s : Stmt) (hf : FragS s = true) (c : Spec.Ctx) (s0 s1 : St) (cs : List CStmt)
+/-- result of running the code of a statement: one `Statement` appended, the expression stack as before -/
+def Stepped (G hs : List Spec.Name) (s : Stmt) (ctx : Lscr.Ctx) (a : Nat) (code : List Instr) (st : PState) : Prop :=
+  ∃ n gv', EmbSH hs s n ∧ PlainStmt n ∧ StmtIn a (codeSize code) n ∧ GvNext G st.gvars gv' ∧
+    runIs ctx a code st = .ok { st with stmts := st.stmts ++ [n], gvars := gv' }
+
+theorem stmtIn_last (a : Nat) (pre : List Instr) (i : Instr) (c : Node) :
+    StmtIn a (codeSize (pre ++ [i])) (.stmt ((a + codeSize pre : Nat) : Int) c) := by
+  refine ⟨_, c, rfl, by omega, ?_⟩
+  have : 1 ≤ i.size := by cases i <;> simp [Instr.size]
+  rw [codeSize_append]
+  simp only [codeSize]
+  omega
+
+/-- **L3**, `set <variable> = e` for the four variable kinds, command calls `f a, b`, `exit` -/
+theorem stmt_lemma (s : Stmt) (hf : FragS s = true) (c : Spec.Ctx) (hT : c.inTell = false) (s0 s1 : St) (cs : List CStmt)
     (h : lowerStmt c s s0 = .ok (cs, s1)) :
     Ext s0 s1 ∧ ∃ code, cs = [.code code] ∧ (∀ i ∈ code, i.opc ≠ 153) ∧
     ∀ (sF : St) (ctx : Lscr.Ctx), Ext s1 sF → Rel c sF ctx → ∀ (G : List Spec.Name), (∀ g ∈ s.vars .glob, g ∈ G) →
       (∀ v ∈ s.vars .prop, ctx.props.contains v = true) →
-      ∀ (a : Nat) (st : PState), st.bpc = 6 → GvOk G st.gvars → Stepped G s ctx a code st := by
+      ∀ (a : Nat) (st : PState), st.bpc = 6 → GvOk G st.gvars → Stepped G c.handlers s ctx a code st := by
   cases s with
   | set lv v =>
     simp only [FragS, Bool.and_eq_true] at hf
@@ -888,7 +1156,7 @@ theorem stmt_lemma (s : Stmt) (hf : FragS s = true) (c : Spec.Ctx) (s0 s1 : St) 
               have hG' : ∀ g ∈ v.vars .glob, g ∈ G := fun g hg => hG g (by simp [Stmt.vars, Expr.vars, hg])
               obtain ⟨nv, gv1, hemb, hgv1, hr1⟩ := hrun sF ctx hF hrel G hG' a st hb hgv
               refine ⟨.stmt ((a + codeSize cv : Nat) : Int) (.binary (S "assign") ((a + codeSize cv : Nat) : Int) (.leaf .localVar (.s n) p) nv),
-                gv1, ⟨_, _, _, nv, rfl, ⟨p, rfl⟩, hemb⟩, PlainStmt.bin _ _ _ _ _, hgv1, ?_⟩
+                gv1, ⟨_, _, _, nv, rfl, ⟨p, rfl⟩, hemb⟩, PlainStmt.bin _ _ _ _ _, stmtIn_last a cv _ _, hgv1, ?_⟩
               rw [runIs_append, hr1]
               simp only [Except.bind]
               rw [runIs_single, exec_setloc ctx j _ hp _ { st with stack := nv :: st.stack, gvars := gv1 } hb nv st.stack rfl]
@@ -911,7 +1179,7 @@ theorem stmt_lemma (s : Stmt) (hf : FragS s = true) (c : Spec.Ctx) (s0 s1 : St) 
             have hG' : ∀ g ∈ v.vars .glob, g ∈ G := fun g hg => hG g (by simp [Stmt.vars, Expr.vars, hg])
             obtain ⟨nv, gv1, hemb, hgv1, hr1⟩ := hrun sF ctx hF hrel G hG' a st hb hgv
             refine ⟨.stmt ((a + codeSize cv : Nat) : Int) (.binary (S "assign") ((a + codeSize cv : Nat) : Int) (.leaf .paramName (.s n) p) nv),
-              gv1, ⟨_, _, _, nv, rfl, ⟨p, rfl⟩, hemb⟩, PlainStmt.bin _ _ _ _ _, hgv1, ?_⟩
+              gv1, ⟨_, _, _, nv, rfl, ⟨p, rfl⟩, hemb⟩, PlainStmt.bin _ _ _ _ _, stmtIn_last a cv _ _, hgv1, ?_⟩
             rw [runIs_append, hr1]
             simp only [Except.bind]
             rw [runIs_single, exec_setparam ctx j _ hp _ { st with stack := nv :: st.stack, gvars := gv1 } hb nv st.stack rfl]
@@ -930,9 +1198,9 @@ theorem stmt_lemma (s : Stmt) (hf : FragS s = true) (c : Spec.Ctx) (s0 s1 : St) 
           have hG' : ∀ g ∈ v.vars .glob, g ∈ G := fun g hg => hG g (by simp [Stmt.vars, Expr.vars, hg])
           obtain ⟨nv, gv1, hemb, hgv1, hr1⟩ := hrun sF ctx (hext2.trans hF) hrel G hG' a st hb hgv
           obtain ⟨gv2, hgv2, hex⟩ := exec_setglob ctx i n hnm ((a + codeSize cv : Nat) : Int)
-            { st with stack := nv :: st.stack, gvars := gv1 } G (hG n (by simp [Stmt.vars, Expr.vars])) hgv1 nv st.stack rfl
+            { st with stack := nv :: st.stack, gvars := gv1 } G (hG n (by simp [Stmt.vars, Expr.vars])) hgv1.1 nv st.stack rfl
           refine ⟨.stmt ((a + codeSize cv : Nat) : Int) (.binary (S "assign") ((a + codeSize cv : Nat) : Int) (.leaf .globalVar (.s n) ((a + codeSize cv : Nat) : Int)) nv),
-            gv2, ⟨_, _, _, nv, rfl, ⟨_, rfl⟩, hemb⟩, PlainStmt.bin _ _ _ _ _, hgv2, ?_⟩
+            gv2, ⟨_, _, _, nv, rfl, ⟨_, rfl⟩, hemb⟩, PlainStmt.bin _ _ _ _ _, stmtIn_last a cv _ _, hgv1.trans hgv2, ?_⟩
           rw [runIs_append, hr1]
           simp only [Except.bind]
           rw [runIs_single, hex]
@@ -952,12 +1220,96 @@ theorem stmt_lemma (s : Stmt) (hf : FragS s = true) (c : Spec.Ctx) (s0 s1 : St) 
           obtain ⟨nv, gv1, hemb, hgv1, hr1⟩ := hrun sF ctx (hext2.trans hF) hrel G hG' a st hb hgv
           refine ⟨.stmt ((a + codeSize cv : Nat) : Int) (.binary (S "assign") ((a + codeSize cv : Nat) : Int)
               (.propAcc ((a + codeSize cv : Nat) : Int) (.leaf .node (.s (S "me")) ((a + codeSize cv : Nat) : Int)) n) nv),
-            gv1, ⟨_, _, _, nv, rfl, ⟨_, _, rfl⟩, hemb⟩, PlainStmt.bin _ _ _ _ _, hgv1, ?_⟩
+            gv1, ⟨_, _, _, nv, rfl, ⟨_, _, rfl⟩, hemb⟩, PlainStmt.bin _ _ _ _ _, stmtIn_last a cv _ _, hgv1, ?_⟩
           rw [runIs_append, hr1]
           simp only [Except.bind]
           rw [runIs_single, exec_setprop ctx i n hnm (hP n (by simp [Stmt.vars, Expr.vars])) _ { st with stack := nv :: st.stack, gvars := gv1 } nv st.stack rfl]
       all_goals (intros; contradiction)
     | _ => simp [FragLv] at hlv
+  | call f as =>
+    simp only [FragS, Bool.and_eq_true] at hf
+    obtain ⟨_, hfl⟩ := hf
+    rw [lowerStmt] at h
+    simp only [M_bind_ok, hT, Bool.false_eq_true, if_false] at h
+    obtain ⟨ca, s', ha, cn, s'', hn, h⟩ := h
+    obtain ⟨hext, hop, hrun⟩ := args_lemma as hfl c s0 _ ca ha
+    obtain ⟨rfl, i, rfl, hiop, hiex⟩ := argsInstr_ok false as.length _ _ _ hn
+    cases hidx : idxOf f c.handlers 0 with
+    | some k =>
+      rw [hidx] at h
+      simp only [M_bind_ok, M_pure_ok, Prod.mk.injEq] at h
+      obtain ⟨cc, s3, hcc, rfl, rfl⟩ := h
+      obtain ⟨rfl, rfl, hk⟩ := op2c_ok _ _ _ _ _ hcc
+      refine ⟨hext, _, rfl, ?_, ?_⟩
+      · intro j hj
+        rcases List.mem_append.mp hj with hj | hj
+        · rcases List.mem_append.mp hj with hj | hj
+          · exact hop j hj
+          · simp only [List.mem_singleton] at hj; subst hj; exact hiop
+        · simp only [List.mem_singleton] at hj; subst hj; simp [Instr.opc]
+      intro sF ctx hF hrel G hG hP a st hb hgv
+      obtain ⟨ns, gv1, hemb, hgv1, hr1⟩ := hrun sF ctx hF hrel G (by simpa [Stmt.vars] using hG) a st hb hgv
+      have hlen := embLH_length _ as ns hemb
+      have hle : as.length ≤ (ns.reverse ++ st.stack).length := by simp; omega
+      have htake : (ns.reverse ++ st.stack).take as.length = ns.reverse := by
+        rw [List.take_append_of_le_length (by simp; omega), List.take_of_length_le (by simp; omega)]
+      have hdrop : (ns.reverse ++ st.stack).drop as.length = st.stack := by
+        rw [List.drop_append_of_le_length (by simp; omega), List.drop_of_length_le (by simp; omega), List.nil_append]
+      have hcont := idxOf_contains f c.handlers 0 k hidx
+      refine ⟨.stmt ((a + codeSize (ca ++ [i]) : Nat) : Int) (.callFn (.s f) ((a + codeSize (ca ++ [i]) : Nat) : Int)
+          (.loadList (listName false) ((a + codeSize ca : Nat) : Int) ns.reverse) true false (c.handlers.contains f) .none), gv1,
+        ⟨_, _, _, ns, rfl, hemb⟩, PlainStmt.call _ _ _ _ _ _ _ _, stmtIn_last a (ca ++ [i]) _ _, hgv1, ?_⟩
+      rw [hcont, runIs_append, runIs_append, hr1]
+      simp only [Except.bind]
+      rw [runIs_single, hiex ctx _ { st with stack := ns.reverse ++ st.stack, gvars := gv1 } hle]
+      simp only [htake, hdrop]
+      rw [runIs_single, exec_calllocal ctx k f (hrel.lfn f k hidx) _ _ false _ ns.reverse st.stack rfl]
+      rfl
+    | none =>
+      rw [hidx] at h
+      simp only [M_bind_ok, M_pure_ok, Prod.mk.injEq] at h
+      obtain ⟨ni, s3, hni, cc, s4, hcc, rfl, rfl⟩ := h
+      obtain ⟨hext2, hget, hlt, _⟩ := nameIdx_ok _ _ _ _ hni
+      obtain ⟨rfl, rfl, hk⟩ := op2c_ok _ _ _ _ _ hcc
+      refine ⟨hext.trans hext2, _, rfl, ?_, ?_⟩
+      · intro j hj
+        rcases List.mem_append.mp hj with hj | hj
+        · rcases List.mem_append.mp hj with hj | hj
+          · exact hop j hj
+          · simp only [List.mem_singleton] at hj; subst hj; exact hiop
+        · simp only [List.mem_singleton] at hj; subst hj; simp [Instr.opc]
+      intro sF ctx hF hrel G hG hP a st hb hgv
+      have hnm : ctx.names[ni]? = some f := by rw [hrel.names]; exact hF.name hget
+      obtain ⟨ns, gv1, hemb, hgv1, hr1⟩ := hrun sF ctx (hext2.trans hF) hrel G (by simpa [Stmt.vars] using hG) a st hb hgv
+      have hlen := embLH_length _ as ns hemb
+      have hle : as.length ≤ (ns.reverse ++ st.stack).length := by simp; omega
+      have htake : (ns.reverse ++ st.stack).take as.length = ns.reverse := by
+        rw [List.take_append_of_le_length (by simp; omega), List.take_of_length_le (by simp; omega)]
+      have hdrop : (ns.reverse ++ st.stack).drop as.length = st.stack := by
+        rw [List.drop_append_of_le_length (by simp; omega), List.drop_of_length_le (by simp; omega), List.nil_append]
+      have hcont := idxOf_not_contains f c.handlers 0 hidx
+      refine ⟨.stmt ((a + codeSize (ca ++ [i]) : Nat) : Int) (.callFn (.s f) ((a + codeSize (ca ++ [i]) : Nat) : Int)
+          (.loadList (listName false) ((a + codeSize ca : Nat) : Int) ns.reverse) true false (c.handlers.contains f) .none), gv1,
+        ⟨_, _, _, ns, rfl, hemb⟩, PlainStmt.call _ _ _ _ _ _ _ _, stmtIn_last a (ca ++ [i]) _ _, hgv1, ?_⟩
+      rw [hcont, runIs_append, runIs_append, hr1]
+      simp only [Except.bind]
+      rw [runIs_single, hiex ctx _ { st with stack := ns.reverse ++ st.stack, gvars := gv1 } hle]
+      simp only [htake, hdrop]
+      rw [runIs_single, exec_callext ctx ni f hnm _ _ false _ ns.reverse st.stack rfl]
+      rfl
+  | exit =>
+    rw [lowerStmt] at h
+    simp only [M_pure_ok, Prod.mk.injEq] at h
+    obtain ⟨rfl, rfl⟩ := h
+    refine ⟨Ext.refl _, _, rfl, ?_, ?_⟩
+    · intro j hj
+      simp only [List.mem_singleton] at hj; subst hj
+      cases c.isMethod <;> simp [Instr.opc]
+    intro sF ctx hF hrel G hG hP a st hb hgv
+    refine ⟨exitNode (a : Int) (a : Int), st.gvars, ⟨_, _, rfl⟩, PlainStmt.call _ _ _ _ _ _ _ _, ?_, GvNext.refl hgv, ?_⟩
+    · have := stmtIn_last a [] (Instr.op1 (if c.isMethod = true then 2 else 1)) (.callFn (.s (S "exit")) (a : Int) .none true false false .none)
+      simpa [codeSize, exitNode] using this
+    rw [runIs_single, exec_exit ctx _ (by cases c.isMethod <;> simp)]
   | _ => simp [FragS] at hf
 
 end Drx.Link
